@@ -237,22 +237,22 @@ class Campaign:
             if i == len(hs) - 1:
                 k = max(1, left)
             k = min(k, max(1, left - (len(hs) - 1 - i)))
-            alloc[h["name"]] = k
+            alloc[i] = k
             left -= k
         jobs = []
         cpu = 0
-        for h in hs:
+        for hi, h in enumerate(hs):
             name = h["name"]
             binary = bins[name]["pbt"]
             schema = json.loads(subprocess.run([binary, "--schema"], stdout=subprocess.PIPE, text=True, env=dict(os.environ, **ENV_BASE)).stdout)
             h["_schema"] = schema
             allowed = h.get("variants") or list(range(len(schema["variants"])))
             nvar = len(allowed)
-            k = alloc[name]
+            k = alloc[hi]
             total_cases = h.get(self.tier, 0)
             per = max(1, total_cases // k)
             for xi, xargs in enumerate(h.get("extra", {}).get(self.tier, [])):
-                jobs.append({"harness": name, "binary": binary, "j": 1000 + xi, "cpu": cpu % NCPU, "cases": 1, "variants": [0], "restart": 0, "done": 0,
+                jobs.append({"harness": name, "binary": binary, "j": 1000 + xi, "hi": hi, "cpu": cpu % NCPU, "cases": 1, "variants": [0], "restart": 0, "done": 0,
                              "extra": [str(x) for x in xargs]})
                 cpu += 1
             for j in range(k if total_cases > 0 else 0):
@@ -260,7 +260,7 @@ class Campaign:
                     vs = [allowed[v] for v in range(nvar) if v % k == (j + self.seed) % k]
                 else:
                     vs = [allowed[(j + self.seed) % nvar]]
-                jobs.append({"harness": name, "binary": binary, "j": j, "cpu": cpu % NCPU, "cases": per, "variants": vs, "restart": 0, "done": 0})
+                jobs.append({"harness": name, "binary": binary, "j": j, "hi": hi, "cpu": cpu % NCPU, "cases": per, "variants": vs, "restart": 0, "done": 0})
                 cpu += 1
         env = dict(os.environ)
         env.update(ENV_BASE)
@@ -270,9 +270,9 @@ class Campaign:
         finished_prefixes = []
 
         def launch(job):
-            prefix = os.path.join(self.outdir, "%s-w%d-r%d" % (job["harness"], job["j"], job["restart"]))
+            prefix = os.path.join(self.outdir, "%s-e%d-w%d-r%d" % (job["harness"], job["hi"], job["j"], job["restart"]))
             job["prefix"] = prefix
-            s = sub_seed(self.seed, self.pid, job["harness"], job["j"], job["restart"])
+            s = sub_seed(self.seed, self.pid, job["harness"], job["hi"], job["j"], job["restart"])
             cmd = ["taskset", "-c", str(job["cpu"]), job["binary"], "--cases", str(job["cases"] - job["done"]), "--seed", str(s),
                    "--tier", self.tier, "--out", prefix, "--variants", ",".join(str(v) for v in job["variants"])]
             if job.get("extra") is not None:
@@ -343,10 +343,10 @@ class Campaign:
         procs = []
         per_h = max(1, NCPU // len(hs))
         cpu = 0
-        for h in hs:
+        for hi, h in enumerate(hs):
             name = h["name"]
             for j in range(per_h):
-                prefix = os.path.join(self.outdir, "%s-fz%d" % (name, j))
+                prefix = os.path.join(self.outdir, "%s-e%d-fz%d" % (name, hi, j))
                 corpus = prefix + ".corpus"
                 os.makedirs(corpus, exist_ok=True)
                 e = dict(env)
